@@ -101,8 +101,17 @@ package vgirpc
 //@   property C30
 //@   modifies nothing
 //@   ensures [value] result == (c.ExternalizeThresholdBytes <= 0 ? 1048576 : c.ExternalizeThresholdBytes)
+// serializedOf(b, batch): b is what serializeBatchAsIPC returned for batch; isZstd(b) / zstdSrc(b):
+// b is what the zstd encoder returned for the input zstdSrc(b). (Facts about freshly produced
+// buffers, identified by their slice value.)
+//@ ghost pred serializedOf(b []byte, batch arrow.RecordBatch)
+//@ func serializeBatchAsIPC
+//@   property C30
+//@   establishes result1 == nil ==> serializedOf(result0, batch)
 //@ func externalizeBatchCtx
 //@   property C30
+//@   # what is uploaded is the serialization when no coding is declared, and its zstd encoding when "zstd" is
+//@   at call ExternalStorage.Upload assert [codingmatchesbytes] (arg3 == "" && serializedOf(arg1, batch)) || (arg3 == "zstd" && isZstd(arg1) && serializedOf(zstdSrc(arg1), batch))
 //@   at call serializeBatchAsIPC assert [eligible] arg0 == batch && numRows(batch) != 0
 //@   at call sha256.Sum256 assert [checksumofserialized] arg0 == ipcData && err == nil
 //@   at call hex.EncodeToString assert [hexofhash] len(arg0) == 32
